@@ -76,9 +76,13 @@ M = [
   "                return Err(TagIteratorError::UnexpectedEOF { tag_start, tag_id: Some(tag_id), tag_size: if self.internal_buffer_position + header_len == self.buffered_byte_length { None } else { Some(size) }, partial_data:",
   ["C12"], "UnexpectedEOF omits the tag size when no payload byte was available"),
  ("m16_buffered_error_swallowed", "src/tag_iterator.rs",
-  "            self.emission_queue.extend(children.drain(split_to..).take(1));",
-  "            self.emission_queue.extend(children.drain(split_to..).take(1).filter(|r| !matches!(r, Err(TagIteratorError::CorruptedFileData(_)))));",
-  ["C08"], "an error of the corruption kind inside a buffered master is dropped"),
+  "                    Err(_) => {\n                        // The master can't be completed - like its children, it is dropped in favor of the error\n                        self.emission_queue.drain(..position);\n                        return true;\n                    },",
+  "                    Err(e) => {\n                        // The master can't be completed - like its children, it is dropped in favor of the error\n                        let keep = if matches!(e, TagIteratorError::CorruptedFileData(_)) { position + 1 } else { position };\n                        self.emission_queue.drain(..keep);\n                        return true;\n                    },",
+  ["C08"], "an error of the corruption kind inside a buffered master is dropped together with the master"),
+ ("m22_buffering_forgets_progress", "src/tag_iterator.rs",
+  "                self.buffering_progress = Some((position, nested_depth));\n                return false;",
+  "                self.buffering_progress = Some((position, 0));\n                return false;",
+  ["C04"], "when buffering is interrupted by a temporary end of the source, the same-id nesting depth reached so far is forgotten"),
  ("m17_writer_accepts_any_end", "src/tag_writer.rs",
   "                if open_tag.0 == id {",
   "                if open_tag.0 == id || open_tag.0 & 0xff == id & 0xff {",
